@@ -9,6 +9,14 @@ ALL = ["C%02d" % i for i in range(1, 21)]
 TECH = "contract-based deductive verification: sidecar contracts on the real functions, VCs generated from /repo's ast by pyvc, discharged by z3/cvc5"
 
 CHECKS = {
+    "C18": dict(
+        category="proof", design_ref="DESIGN.md section 8 (C18)",
+        text=("Alias.__get__/__set__/__delete__ and the three DeprecatedAlias wrappers are symbolically executed from the current source against the "
+              "two-variable model of the statement (live target vs per-instance override; passthrough; transform; fallback copy; AttributeError) "
+              "for identifier and dotted paths, with every option symbolic; DeprecatedAlias is proved to warn exactly once and to change nothing "
+              "else. All obligations discharged by z3."),
+        note=("Scope: paths of one or two identifier components; the regular-expression parser and [\"key\"] components rest on a labelled bounded "
+              "stand-in (operation histories over six path forms). Assumed: A-LOOKUP, A-NAMES (override slot name distinct), A-CB, A-COPY.")),
     "C10": dict(
         category="proof", design_ref="DESIGN.md section 8 (C10)",
         text=("EqMethod.eq is symbolically executed from the current source (loop invariant over the attrs dict) and proved to return exactly the "
